@@ -96,6 +96,29 @@ func p4scenario(v int) []p4step {
 			}
 		}}
 	}
+	if v%4 == 3 {
+		// a session whose two QERs are referenced by every PDR: one of them is session-level, and an Update QER that lowers its
+		// rate makes the marking pick the other one; the cells were allocated under the first labelling
+		estBoth := p4step{"est R", func(w *world, ss map[string]*hsess) {
+			pdrs, fars, _ := mk(5, 1)
+			pdrs[0].Qers, pdrs[1].Qers = []uint32{1, 4}, []uint32{1, 4}
+			qers := []sysh.QerIE{q(1, 1000), q(4, 50000)}
+			w.nextCP++
+			if h, _ := w.est(0, w.nodes[0], w.nextCP, pdrs, fars, qers, "c15-both"); h != nil {
+				ss["R"] = h
+			}
+		}}
+		lower := p4step{"mod R lower session QER", func(w *world, ss map[string]*hsess) {
+			if h := ss["R"]; h != nil {
+				qq := h.qers[1]
+				qq.Mbr = [2]uint64{10, 20}
+				if w.mod(0, h.up, modReq{uq: []sysh.QerIE{qq}}, "c15-relabel").Cause == 1 {
+					h.qers[1] = qq
+				}
+			}
+		}}
+		return []p4step{est("A", 1, 0), estBoth, lower, del("R"), est("B", 2, 0), est("C", 3, 1), del("A"), del("B"), del("C")}
+	}
 	switch v % 3 {
 	case 0:
 		return []p4step{est("A", 1, 0), est("B", 2, 0), modFar("A", 0x0C, true), modFar("A", 2, true), modQer("B"), del("B"), est("C", 3, 0), modFar("C", 2, true), del("A"), del("C"), est("D", 4, 1), del("D")}
@@ -108,7 +131,7 @@ func p4scenario(v int) []p4step {
 
 func c15(c *ctx) {
 	r := c.rng
-	nScen := c.pick(2, 3)
+	nScen := c.pick(4, 4)
 	for v := 0; v < nScen; v++ {
 		o := sysh.Opts{P4: true, Pool: "10.60.0.0/16", P4DefaultTC: 3}
 		w, err := newWorld(c, o)
@@ -147,9 +170,9 @@ func c15(c *ctx) {
 				}
 			}
 		}
-		if !c.thorough() && len(faults) > 70 {
+		if !c.thorough() && len(faults) > 45 {
 			r.Shuffle(len(faults), func(a, b int) { faults[a], faults[b] = faults[b], faults[a] })
-			faults = faults[:70]
+			faults = faults[:45]
 		}
 		for _, f := range faults {
 			runFaulted(c, o, steps, []struct {
